@@ -42,6 +42,51 @@ def lake_build(targets):
     return rc == 0, out
 
 
+def _project_imports(mod):
+    p = os.path.join(LEAN, mod.replace(".", "/") + ".lean")
+    if not os.path.exists(p):
+        return []
+    return re.findall(r"^import (DilithiumVerif\S*)", open(p).read(), flags=re.M)
+
+
+def leancheck(prop_id):
+    """independent re-check (leanchecker: replays the compiled declarations through the kernel) of every project module
+    the property's theorem module depends on; modules whose .olean was already re-checked are skipped (cache keyed by the
+    .olean's hash). returns (ok, info dict)"""
+    root = "DilithiumVerif.Props." + prop_id
+    seen, st = [], [root]
+    while st:
+        m = st.pop()
+        if m in seen:
+            continue
+        seen.append(m)
+        st += _project_imports(m)
+    cache_p = os.path.join(LEAN, ".lake", "leanchecker_cache.json")
+    try:
+        cache = json.load(open(cache_p))
+    except Exception:
+        cache = {}
+    todo, keys = [], {}
+    for m in seen:
+        ol = os.path.join(LEAN, ".lake", "build", "lib", "lean", m.replace(".", "/") + ".olean")
+        if not os.path.exists(ol):
+            return False, dict(modules=len(seen), error="missing " + ol)
+        keys[m] = hashlib.sha256(open(ol, "rb").read()).hexdigest()
+        if cache.get(m) != keys[m]:
+            todo.append(m)
+    info = dict(modules=len(seen), rechecked_now=len(todo), cached=len(seen) - len(todo))
+    if todo:
+        rc, out = sh(["lake", "env", "leanchecker"] + todo, cwd=LEAN, timeout=7200)
+        if rc != 0:
+            info["error"] = out[-1500:]
+            return False, info
+        for m in todo:
+            cache[m] = keys[m]
+        with open(cache_p, "w") as f:
+            json.dump(cache, f)
+    return True, info
+
+
 def harness_build():
     """build the harness against /repo's working tree, both profiles. returns (ok, output)"""
     lock_src = os.path.join(REPO, "Cargo.lock")
